@@ -24,6 +24,16 @@ func TestKeysComeFromTheEndpointOfTheTokensIssuer(t *testing.T) {
 		keyNames := []string{"ecp256", "ecp256b", "ecp384"}
 		sets := map[string][]keyEntry{}
 
+		// the issuer is either in the middle of the key set URL or its last element; in the latter case issuer names
+		// and key ids are chosen such that url+kid of one issuer reads like url+kid of another one
+		issuerLast := rapid.Bool().Draw(t, "issuerIsLastURLElement")
+		urlTemplate := "/{{ .TokenIssuer }}/jwks"
+
+		if issuerLast {
+			urlTemplate = "/keys/{{ .TokenIssuer }}"
+			issuerNames = []string{"tenant-a", "tenant-ab"}
+		}
+
 		for i, iss := range issuerNames {
 			e := loadEntry(keyNames[i])
 			e.Alg = vkit.AlgsFor(e.priv)[0] // the key declares its algorithm (a token is only accepted if it names the same one)
@@ -33,6 +43,10 @@ func TestKeysComeFromTheEndpointOfTheTokensIssuer(t *testing.T) {
 				e.Kid = "k-" + iss
 			}
 
+			if issuerLast {
+				e.Kid = map[string]string{"tenant-a": "bk1", "tenant-ab": "k1"}[iss]
+			}
+
 			sets[iss] = []keyEntry{e}
 		}
 
@@ -40,6 +54,12 @@ func TestKeysComeFromTheEndpointOfTheTokensIssuer(t *testing.T) {
 			parts := strings.Split(strings.Trim(c.Path, "/"), "/")
 			if len(parts) == 2 && parts[1] == "jwks" {
 				if set, ok := sets[parts[0]]; ok {
+					return vkit.JSONReply(200, jwks(set))
+				}
+			}
+
+			if len(parts) == 2 && parts[0] == "keys" {
+				if set, ok := sets[parts[1]]; ok {
 					return vkit.JSONReply(200, jwks(set))
 				}
 			}
@@ -54,7 +74,7 @@ func TestKeysComeFromTheEndpointOfTheTokensIssuer(t *testing.T) {
 
 		cacheTTL := rapid.SampledFrom([]string{"", "10m", "0s"}).Draw(t, "cacheTTL")
 		pc := config.MechanismConfig{
-			"jwks_endpoint": map[string]any{"url": jwksSrv.URL() + "/{{ .TokenIssuer }}/jwks"},
+			"jwks_endpoint": map[string]any{"url": jwksSrv.URL() + urlTemplate},
 			"assertions":    map[string]any{"issuers": trusted, "allowed_algorithms": toAny(allAlgs)},
 		}
 
@@ -94,7 +114,7 @@ func TestKeysComeFromTheEndpointOfTheTokensIssuer(t *testing.T) {
 			sk := sets[signer][0]
 			kid := sk.Kid
 
-			if rapid.IntRange(0, 3).Draw(t, "kidOfClaimed") == 0 {
+			if rapid.IntRange(0, 3).Draw(t, "kidOfClaimed") == 0 || issuerLast && signer != claimed {
 				kid = sets[claimed][0].Kid
 			}
 
@@ -134,6 +154,7 @@ func TestKeysComeFromTheEndpointOfTheTokensIssuer(t *testing.T) {
 
 		vkit.S.Eval()
 		vkit.S.Label("issuers.cache_ttl=" + cacheTTL)
+		vkit.S.LabelIf(issuerLast, "issuers.issuer_is_last_url_element")
 		vkit.S.LabelIf(crossed, "issuers.token_signed_by_other_issuers_key")
 
 		if crossed {
